@@ -31,6 +31,10 @@ def check(ctx: Ctx) -> None:
     c03_r2(ctx, "C02.R3b")
     from .c09 import r1_fresh_names
     r1_fresh_names(ctx, "C02.R4")
+    # a reader must resolve THE POINTER's version: a failing pointer read may not fall back to "the highest version on
+    # disk" (which can be a metadata file written by a commit that has not flipped the pointer yet)
+    from .c10 import r2 as c10_r2, r4 as c10_r4
+    c10_r4(ctx, "C02.R5")
 
 
 def refresh_reaching_calls(ctx: Ctx, f: FunctionInfo) -> List[Node]:
